@@ -24,6 +24,8 @@ func optsOf(bits int) *generic.Options {
 		CastStringAsBinary:  bits&4 != 0,
 		MapStructById:       bits&8 != 0,
 		IterateStructByName: bits&16 != 0,
+		StoreChildrenById:   bits&64 != 0,
+		StoreChildrenByHash: bits&128 != 0,
 	}
 }
 
@@ -72,7 +74,8 @@ func (g *tgen) bulkRequest(cv *Val) []Step {
 				return Step{Kind: 3, B: k.S}, true
 			case 4:
 				if kk == thrift.I08 && k.I < 0 {
-					return Step{}, false
+					// the generic layer reads an I08 key as an UNSIGNED byte: key bytes 0x80..0xff are the int keys 128..255
+					return Step{Kind: 4, N: k.I + 256}, true
 				}
 				return Step{Kind: 4, N: k.I}, true
 			}
@@ -380,6 +383,49 @@ func genC01More(r *rng, g *tgen, root *Ty, desc *thrift.TypeDescriptor, val *Val
 				f = append(f, items...)
 			}
 			out.emit(104, f...)
+		}
+
+		// ---- 110: Children listing with its Path per child, under StoreChildrenById / StoreChildrenByHash / neither:
+		// the storage slot differs, the set of children (path, type, span) must be the model's in every mode ----
+		if r.chance(45) {
+			for _, ob := range []int{0, 64, 128, 64 | 128} {
+				if ob != 0 && !r.chance(60) {
+					continue
+				}
+				var kids []generic.PathNode
+				var cerr error
+				ok, _ := noPanic(func() { cerr = sub.Children(&kids, false, optsOf(ob)) })
+				f := append([]string(nil), head...)
+				f = append(f, fi(ob))
+				switch {
+				case !ok:
+					f = append(f, "n3", "n0")
+				case cerr != nil:
+					f = append(f, "n2", "n0")
+				default:
+					type ent struct {
+						start int
+						fs    []string
+					}
+					var es []ent
+					for _, k := range kids {
+						if k.Node.IsEmpty() {
+							continue // an unused storage slot
+						}
+						o := observe(raw, k.Node)
+						e := ent{start: atoiField(o[2])}
+						e.fs = append(e.fs, stepOfPath(k.Path, ct).fields()...)
+						e.fs = append(e.fs, o[1:]...)
+						es = append(es, e)
+					}
+					sort.SliceStable(es, func(i, j int) bool { return es[i].start < es[j].start })
+					f = append(f, "n0", fi(len(es)))
+					for _, e := range es {
+						f = append(f, e.fs...)
+					}
+				}
+				out.emit(110, f...)
+			}
 		}
 
 		// ---- 109: typed Foreach over a struct that carries fields its descriptor does NOT define (data of a newer IDL):
